@@ -9,10 +9,14 @@ Definition un_proj (x : sx) : proj :=
 Definition un_edit (x : sx) : edit :=
   mkE (un_bool (nth_sx 0 x)) (un_bool (nth_sx 1 x)) (un_bool (nth_sx 2 x)).
 
+(* [cal; adeps (F2); dnc (F1)] *)
+Definition un_variant (x : sx) : variant :=
+  mkV (un_bool (nth_sx 0 x)) (un_bool (nth_sx 1 x)) (un_bool (nth_sx 2 x)).
+
 Definition sx_file (f : file) : list sx :=
   match f with
   | FEnv => [A 0] | FImm k => [A 1; sx_nat k] | FDeps => [A 2] | FCache => [A 3]
-  | FBuild => [A 4] | FStamp => [A 5] | FCompdb => [A 6]
+  | FBuild => [A 4] | FStamp => [A 5] | FCompdb => [A 6] | FDepsTmp => [A 9]
   end.
 Definition sx_op (o : fsop) : sx :=
   match o with
@@ -22,13 +26,14 @@ Definition sx_op (o : fsop) : sx :=
   | Utime f => L (A 3 :: sx_file f)
   | Mkdir DBuild => L [A 4; A 7]
   | Mkdir DImm => L [A 4; A 8]
+  | Rename a b => L (A 5 :: sx_file a ++ sx_file b)
   end.
 Definition sx_fstate (x : fstate) : sx :=
   A (match cont x with Absent => 0 | Empty => 1 | Full Old => 2 | Full New => 3 end).
 
-(* [cal; kind (0 regenerate, 1 configure-into, 2 lazy skip); proj] -> ops *)
+(* [variant; kind (0 regenerate, 1 configure-into, 2 lazy skip); proj] -> ops *)
 Definition t_run_ops (x : sx) : sx :=
-  let cal := un_bool (nth_sx 0 x) in
+  let cal := un_variant (nth_sx 0 x) in
   let p := un_proj (nth_sx 2 x) in
   sx_list sx_op (match un_N (nth_sx 1 x) with
                  | 0 => run_ops cal p
@@ -41,27 +46,32 @@ Definition sx_result (r : bool * fs * bool) : sx :=
   L [sx_bool (fst (fst r)); sx_bool (snd r); sx_fstate (f_build s); sx_list sx_fstate (f_imm s); sx_fstate (f_compdb s);
      sx_bool (describes_new s)].
 
-(* [cal; proj; edit; n; k] -> the k follow-ups after a crash at n *)
+(* [variant; proj; edit; n; k] -> the k follow-ups after a crash at n *)
 Definition t_outcome (x : sx) : sx :=
-  let cal := un_bool (nth_sx 0 x) in
+  let cal := un_variant (nth_sx 0 x) in
   let p := un_proj (nth_sx 1 x) in
   let e := un_edit (nth_sx 2 x) in
   let n := un_nat (nth_sx 3 x) in
   let k := un_nat (nth_sx 4 x) in
   let s := crash 4 n (run_ops cal p) (fs_old p) in
-  L [L [sx_fstate (f_build s); sx_list sx_fstate (f_imm s); sx_fstate (f_compdb s)];
+  L [L [sx_fstate (f_build s); sx_list sx_fstate (f_imm s); sx_fstate (f_compdb s); sx_fstate (f_deps s); sx_fstate (f_tmp s)];
      sx_list sx_result (attempts cal p e 5 k s);
      sx_bool (safe_at cal p e n k)].
 
-(* [proj; j] -> mutations performed by a run whose script / hook raises after j mutations, and the build file after it *)
+(* [variant; proj; j] -> mutations performed by a run whose script / hook raises after j mutations, and the build file after it *)
 Definition t_raise (x : sx) : sx :=
-  let p := un_proj (nth_sx 0 x) in
-  let j := un_nat (nth_sx 1 x) in
-  let l := until_raise (run_events p j) in
+  let v := un_variant (nth_sx 0 x) in
+  let p := un_proj (nth_sx 1 x) in
+  let j := un_nat (nth_sx 2 x) in
+  let l := until_raise (run_events v p j) in
   L [sx_list sx_op l; sx_fstate (f_build (apply_ops 4 l (fs_old p)))].
 
+(* [variant; proj] *)
 Definition t_points (x : sx) : sx :=
-  let p := un_proj x in L [sx_nat (deps_pt p); sx_nat (window_pt p); sx_nat (List.length (pre_ops p))].
+  let v := un_variant (nth_sx 0 x) in
+  let p := un_proj (nth_sx 1 x) in
+  L [sx_nat (deps_pt p); sx_nat (window_pt v p); sx_nat (List.length (pre_ops v p));
+     sx_nat (compdb_lo v p); sx_nat (compdb_hi v p)].
 
 Definition table : list (string * (sx -> sx)) :=
   [ ("crash.run_ops"%string, t_run_ops);
